@@ -9,5 +9,8 @@ Extraction "model.ml"
   ScalarOps.mulmod_gen ScalarOps.muladd_gen ScalarOps.muladd64
   NTTInst.ntt_fwd NTTInst.ntt_inv NTTInst.ntt_mul NTTInst.nega_spec NTTInst.ntt_fwd1 NTTInst.ntt_inv1
   ExprExec.eval_slice ExprExec.spec_slice ExprExec.any_nzl ExprExec.all_nzl
+  CRTExec.poly2mpz_coef CRTExec.mpz2poly_coef CRT.prod
+  Setters.set_list
+  Serial.serialize Serial.deserialize Serial.overlay
   Params.rows16 Params.rows32 Params.rows64 Shards.K16 Shards.K32 Shards.K64
   Z.modulo Z.div Z.mul Z.add Z.sub Z.pow.
